@@ -55,7 +55,7 @@ func runC19(c *eng.Ctx, tier string) {
 	pred := expiryPredicate(p)
 	// R-C19-7: "dropped from the store and its cache only if ...": the cache
 	// document is the whole active set (C13's rule), nothing is filtered out
-	includeOnly(c, "R-C19-7", func(sc *eng.Ctx) { runC13(sc, "quick") }, "R-C13-2")
+	includeOnly(c, "R-C19-7", func(sc *eng.Ctx) { runC13(sc, "quick") }, "R-C13-2", "R-C13-6")
 	l := moduleLocks(c)
 	poll := anchor(p, setecPkg, "(*Store).poll")
 	applyFns := applyFuncs(c)
